@@ -364,6 +364,8 @@ package service
 //@   props C01 C18 C19
 //@   atomic
 //@   requires cl != nil && validElem(e)
+//@   trace[C19,reorders-under-the-write-lock] exactly 1 lock:service.cipherList.mu
+//@   trace[C19,no-read-lock-for-writes] never rlock:service.cipherList.mu
 
 // Update installs a new key list (it takes ownership): every element must hold a valid entry.
 //@ func (*cipherList).Update
@@ -463,6 +465,8 @@ package service
 //@   ensures[C03,payload-after-header] result.2 == nil ==> result.0.$arr == textData.$arr && len(result.0) <= len(textData) \
 //@       && result.0.$off + len(result.0) == textData.$off + len(textData)
 //@   trace[C05,validated-when-accepted] exactly 1 service.packetHandler.targetIPValidator when result.2 == nil
+//@   trace[C03,payload-starts-after-address] each socks.SplitAddr satisfies result.2 == nil ==> result.0.$off == textData.$off + len($res0) && sameslice($arg0, textData)
+//@   trace[C03,address-parsed-once] exactly 1 socks.SplitAddr
 //@   trace[C05,validator-verdict-respected] each service.packetHandler.targetIPValidator satisfies result.2 == nil ==> $res0 == nil && sameslice($arg0, result.1.IP)
 
 //@ func isDNS
@@ -621,6 +625,8 @@ package service
 //@   trace[C04,table-written-only-through-add] never service.(*natmap).set
 //@   trace[C04,unauthenticated-datagram-leaves-table-alone] never service.(*natmap).* when result != nil && result.Status == "ERR_CIPHER" && evcount("service.(*natmap).Get") == 0
 //@   trace[C04,association-reused] each service.(*natmap).Get satisfies $res0 != nil ==> targetConn == $res0 && evcount("service.(*natmap).Add") == 0
+//@   trace[C03,known-client-decrypted-with-its-key-only] each service.(*natmap).Get satisfies $res0 != nil ==> evcount("service.findAccessKeyUDP") == 0 && evcount("shadowsocks.Unpack") == 1
+//@   trace[C03,new-client-tries-the-key-list] each service.(*natmap).Get satisfies $res0 == nil ==> evcount("service.findAccessKeyUDP") == 1 && evcount("shadowsocks.Unpack") == 0
 //@   trace[C05,one-validation-per-datagram] atmost 1 service.(*packetHandler).validatePacket
 //@   trace[C05,sent-to-validated-address] each service.(*natconn).WriteTo satisfies evres("service.(*packetHandler).validatePacket", 2) == nil && $arg2 != nil && as($arg2, "*net.UDPAddr") == evres("service.(*packetHandler).validatePacket", 1)
 //@   trace[C03,payload-from-validation] each service.(*natconn).WriteTo satisfies sameslice($arg1, evres("service.(*packetHandler).validatePacket", 0))
@@ -634,6 +640,7 @@ package service
 //@   props C03 C14 C16 C18
 //@   requires clientAddr != nil && clientConn != nil && validNatconn(targetConn) && l != nil
 //@   trace[C16,one-report-per-reply] loop 1 exactly 1 service.UDPConnMetrics.AddPacketFromTarget
+//@   trace[C16,expiry-is-not-a-datagram] never service.UDPConnMetrics.AddPacketFromTarget
 //@   trace[C16,report-sizes] loop 1 each service.UDPConnMetrics.AddPacketFromTarget satisfies $recv == targetConn.metrics && $arg1 == bodyLen && $arg2 == proxyClientBytes
 //@   trace[C16,report-status] loop 1 each service.UDPConnMetrics.AddPacketFromTarget satisfies (evres("service.timedCopy$1", 0) == nil ==> $arg0 == "OK") \
 //@        && (evres("service.timedCopy$1", 0) != nil ==> $arg0 == evres("service.timedCopy$1", 0).Status)
@@ -800,10 +807,13 @@ package service
 //@   acquires-level 20
 //@   requires m != nil
 //@   ensures result.1 == nil ==> result.0 != nil
+// owner callbacks: the released address is forgotten, so that it can be bound again
 //@ func (*listenerManager).ListenStream$1
 //@   props C12 C13 C18 C19
 //@   acquires-level 20
 //@   requires m != nil
+//@   trace[C12,released-address-forgotten] exactly 1 mapdelete
+//@   trace[C12,forgets-its-own-address] each mapdelete satisfies $arg0 == m.streamListeners
 //@ func (*listenerManager).ListenPacket
 //@   props C12 C13 C18 C19
 //@   acquires-level 20
@@ -813,6 +823,8 @@ package service
 //@   props C12 C13 C18 C19
 //@   acquires-level 20
 //@   requires m != nil
+//@   trace[C12,released-address-forgotten] exactly 1 mapdelete
+//@   trace[C12,forgets-its-own-address] each mapdelete satisfies $arg0 == m.packetListeners
 //@ func NewListenerManager
 //@   props C18
 //@   ensures result != nil
